@@ -688,22 +688,22 @@ En_Stop(x) == x.ph = "fin" /\ (x.pass = 2 \/ ~Pre(x.out))
 Do_Stop(x, devs) == [x EXCEPT !.ph = "done", !.out1 = IF x.pass = 1 THEN x.out ELSE @]
 
 (* ---- the machine: one action per step of the code ---------------------------- *)
-Tokenize  == En_Tokenize(m)  /\ m' = Do_Tokenize(m, Deviations)
-Enter     == En_Enter(m)     /\ m' = Do_Enter(m, Deviations)
-EmitGroup == En_EmitGroup(m) /\ m' = Do_EmitGroup(m, Deviations)
-Leave     == En_Leave(m)     /\ m' = Do_Leave(m, Deviations)
-Tail_     == En_Tail(m)      /\ m' = Do_Tail(m, Deviations)
-TailDone  == En_TailDone(m)  /\ m' = Do_TailDone(m, Deviations)
-Reformat  == En_Reformat(m)  /\ m' = Do_Reformat(m, Deviations)
-Stop      == En_Stop(m)      /\ m' = Do_Stop(m, Deviations)
+Tokenize  == En_Tokenize(m)  /\ m' = Do_Tokenize(m, Deviations) /\ UNCHANGED << blk, idx >>
+Enter     == En_Enter(m)     /\ m' = Do_Enter(m, Deviations) /\ UNCHANGED << blk, idx >>
+EmitGroup == En_EmitGroup(m) /\ m' = Do_EmitGroup(m, Deviations) /\ UNCHANGED << blk, idx >>
+Leave     == En_Leave(m)     /\ m' = Do_Leave(m, Deviations) /\ UNCHANGED << blk, idx >>
+Tail_     == En_Tail(m)      /\ m' = Do_Tail(m, Deviations) /\ UNCHANGED << blk, idx >>
+TailDone  == En_TailDone(m)  /\ m' = Do_TailDone(m, Deviations) /\ UNCHANGED << blk, idx >>
+Reformat  == En_Reformat(m)  /\ m' = Do_Reformat(m, Deviations) /\ UNCHANGED << blk, idx >>
+Stop      == En_Stop(m)      /\ m' = Do_Stop(m, Deviations) /\ UNCHANGED << blk, idx >>
 
 (* the generator: the behaviours up to GenStart are exactly the layouts of the bounded domain *)
 GenLine  == m.ph = "gen" /\ Len(m.lay.lines) < MaxL /\
-            \E k \in LineKinds : ValidPrefix(Append(m.lay.lines, k)) /\ m' = [m EXCEPT !.lay.lines = Append(@, k)]
-GenStart == m.ph = "gen" /\ Complete(m.lay.lines) /\ \E lay \in Spiced(m.lay.lines) : m' = InitM(lay)
+            \E k \in LineKinds : ValidPrefix(Append(m.lay.lines, k)) /\ m' = [m EXCEPT !.lay.lines = Append(@, k)] /\ UNCHANGED << blk, idx >>
+GenStart == m.ph = "gen" /\ Complete(m.lay.lines) /\ (\E lay \in Spiced(m.lay.lines) : m' = InitM(lay)) /\ UNCHANGED << blk, idx >>
 
 PlaceInit == m = [InitM(Lay(<< >>, FALSE, 0)) EXCEPT !.ph = "gen"] /\ blk = 0 /\ idx = 0
-PlaceNext == UNCHANGED << blk, idx >> /\ (GenLine \/ GenStart \/ Tokenize \/ Enter \/ EmitGroup \/ Leave \/ Tail_ \/ TailDone \/ Reformat \/ Stop)
+PlaceNext == GenLine \/ GenStart \/ Tokenize \/ Enter \/ EmitGroup \/ Leave \/ Tail_ \/ TailDone \/ Reformat \/ Stop
 
 (* the same steps as a function, for the code-faithful prediction *)
 StepF(x, devs) ==
